@@ -109,7 +109,9 @@ def run_tlc(module, workdir, tag="run", workers=None, timeout=3600, env=None, co
     out_path = os.path.join(workdir, "%s.out" % tag)
     if workers is None:
         workers = NPROC
-    cmd = ["java", "-XX:+UseParallelGC", "-Xmx8g", "-Xss64m"] + list(jvm_opts) + ["-cp", TLC_JAR_CP, "tlc2.TLC",
+    jtmp = os.path.join(workdir, "jtmp")          # TLC unpacks its standard modules into java.io.tmpdir on every start: keep that inside the work directory
+    os.makedirs(jtmp, exist_ok=True)
+    cmd = ["java", "-XX:+UseParallelGC", "-Xmx8g", "-Xss64m", "-Djava.io.tmpdir=" + jtmp] + list(jvm_opts) + ["-cp", TLC_JAR_CP, "tlc2.TLC",
            "-workers", str(workers), "-metadir", meta, "-noGenerateSpecTE", "-config", cfg_path]
     if coverage:
         cmd += ["-coverage", "1"]
@@ -302,6 +304,7 @@ class Ctx:
         self.work = os.path.join(VERIF, ".work", "%s-%d" % (prop, os.getpid()))
         shutil.rmtree(self.work, ignore_errors=True)
         os.makedirs(self.work)
+        os.environ["VERIF_RUN_WORK"] = self.work          # scratch directory of this run, for code running in forked workers
         shutil.rmtree(os.path.join(VERIF, "replays", prop), ignore_errors=True)   # replays of earlier runs are stale
         self.states = 0
         self.transitions = 0
